@@ -17,7 +17,7 @@ CHECKS = {
    text="FrameCompressor.tla (frame loop, block decision, literals decision composed with a shadow decoder) is explored exhaustively with invariants SyncNow / BeliefSound / OneLast / Structure / FreshFrame; every transition of its graph becomes an input program (content class per block, level, read fragmentation, up to 2 frames on one reused compressor) run on the real compressor; every emitted frame is decoded by ruzstd and libzstd and compared with the input; the recorded block decisions are validated against Trace_FrameCompressor. Seeded random programs over boundary lengths extend this. Exhaustive over the abstract decision graph, sampled over byte contents.",
    note="libzstd 1.5.7 is the reference decoder; inputs sampled per content class; bounds MaxFrames=2, MaxBlocks=2/3", technique=TECH),
  "C04": dict(level=MC, design="5/C04",
-   text="TLC explores the cell-level ring buffer model exhaustively (every reachable (cap, head, tail, written-set) x every operation x operand menu, chunked over-copy K=16, invariants Safe/TypeOK/Accounting/WrittenPrefix); every transition of that graph is replayed on the real RingBuffer (contents against a byte queue, len, free, position invariants); seeded random RingBuffer and DecodeBuffer operation sequences are recorded through hooks (operations and the extents the raw copies actually touched) and validated against the trace specification, so over-reads that never change contents are detected. Exhaustive within the bounds, sampled beyond them; the index arithmetic alone (RingArith.tla: extend with and without growth, drop, clear) is proved for arbitrary capacities: Apalache discharges Init => IndInv and IndInv /\\ Next => IndInv' symbolically, TLC bridges its modulo-free wrap to the % form of the code.",
+   text="TLC explores the cell-level ring buffer model exhaustively (every reachable (cap, head, tail, written-set) x every operation x operand menu, chunked over-copy K=16, invariants Safe/TypeOK/Accounting/WrittenPrefix); every transition of that graph is replayed on the real RingBuffer (contents against a byte queue, len, free, position invariants); seeded random RingBuffer and DecodeBuffer operation sequences are recorded through hooks (operations and the extents the raw copies actually touched) and validated against the trace specification, so over-reads that never change contents are detected. Exhaustive within the bounds, sampled beyond them; the index arithmetic alone (RingArith.tla: extend with and without growth, drop, clear) is proved for arbitrary capacities: Apalache discharges Init => IndInv and IndInv /\\ Next => IndInv' symbolically, TLAPS proves Spec => [](IndInv /\\ Safe) (RingArithProof.tla, 44 obligations, with a deviating self-test), TLC bridges its modulo-free wrap to the % form of the code.",
    note="compiler and allocator trusted; bounds cap<=33 (quick) / <=65 (thorough), larger capacities only through random traces (cap<=129); K=8 path on the specification only", technique=TECH),
  "C05": dict(level=MC, design="5/C05",
    text="FrameDecoder.tla has no successful transition for a block regenerating more than 128 KiB (invariant Bounded05); explored over hostile frames (blocks at exactly 128 KiB and one byte more by sequences and by RLE literals, 1000 / 32800 maximum-length matches, a window-sized block after the window was filled) x all strategies, every transition replayed on the real decoder; every frame x strategy x front end additionally runs in a child process under a counting allocator with heap cap and deadline: bytes held beyond the window and heap peak must stay within window + requested + 128 KiB; the incremental strategies run again on a decoder that has just finished a frame with an 8 MiB window, and what one collect() hands out must stay within this frame's window + requested + 128 KiB.",
@@ -110,7 +110,7 @@ def main():
         },
         "engines": [
             {"name": "tlc+vh", "path": "/verif/check", "serves_properties": sorted(CHECKS.keys()),
-             "kind_free_text": "Python driver: TLC (tools/tlc.sh) on spec/*.tla, state-graph walker (vlib/walk.py), Rust conformance harness (harness/, binary vh) replaying TLC behaviours on the real code and recording traces that TLC validates; C04 additionally discharges the inductive invariant of spec/RingArith.tla (ring index arithmetic for arbitrary capacities) with Apalache (apalache-mc)"},
+             "kind_free_text": "Python driver: TLC (tools/tlc.sh) on spec/*.tla, state-graph walker (vlib/walk.py), Rust conformance harness (harness/, binary vh) replaying TLC behaviours on the real code and recording traces that TLC validates; C04 additionally discharges the inductive invariant of spec/RingArith.tla (ring index arithmetic for arbitrary capacities) with Apalache (apalache-mc) and proves the same theorem deductively with TLAPS (tlapm, spec/RingArithProof.tla)"},
         ],
         "checks": checks,
         "not_applicable": na,
